@@ -64,7 +64,7 @@ def probe_state(ig, fn, live):
             if c and strip_cast(c[1]).get("k") == "l" and strip_cast(c[2]).get("n") == "_bucket_mask":
                 pv.add(strip_cast(c[1])["id"])
                 heads.append(ig.frames[0].block_node[bid])
-    writes = [n for n in ig.ev_nodes() if n.id in live and n.frame.id == 0 and n.ev["e"] == "asg" and
+    writes = [n for n in ig.ev_nodes() if n.id in live and n.frame.owner_id == 0 and n.ev["e"] == "asg" and
               strip_cast(n.ev.get("lhs", {})).get("k") == "l" and strip_cast(n.ev["lhs"]).get("id") in pv]
     return groups, heads, pv, writes
 
